@@ -497,6 +497,8 @@ H("assembler_ensure_ordering_empty", ["C01"], "quick", "connection::assembler::e
   ["something consumed", "nothing consumed"],
   ["Assembler::ensure_ordering", "RangeSet::insert", "RangeSet::peek_min"],
   "an assembler with nothing buffered, every read cursor < 2^62; buffered chunks (heap traversal, defragment) are outside")
+H("assembler_ordered_then_unordered_native", ["C01"], "replay-only", "connection::assembler::ordered_then_unordered_native",
+  [("a", "u8"), ("o", "u8"), ("b", "u8")], 4, [], ["Assembler::insert", "Assembler::read", "Assembler::ensure_ordering", "Assembler::defragment"], "native demonstration / replay body: ordered read, then unordered reads over an overlapping retransmission")
 H("assembler_defragment_step", ["C01"], "quick", "connection::assembler::defragment_step",
   [("offset0", "u64"), ("len", "usize"), ("alloc", "usize"), ("defragmented", "bool"), ("frontier", "u64")], 4,
   ["chunk entirely below the frontier", "chunk trimmed", "chunk kept whole"],
